@@ -52,7 +52,7 @@ func (u *Unit) logArr(st *State, field string, vs *Sort) *Term {
 func (u *Unit) logAppend(st *State, verb string, obj, namespaced, ns *Term, typ *Term) {
 	c := u.c
 	n := u.logLen(st)
-	for _, f := range []string{"sent", "kns", "kname"} {
+	for _, f := range []string{"sent", "kns", "kname", "err"} {
 		// keep these arrays materialised so that a later havoc preserves their prefix
 		u.logArr(st, f, logFieldSort(f))
 	}
@@ -74,7 +74,7 @@ func (u *Unit) logHavoc(st *State, guard *Term) {
 	for _, f := range []struct {
 		name string
 		s    *Sort
-	}{{"verb", SStr}, {"obj", SRef}, {"nsd", SBool}, {"ns", SStr}, {"typ", SInt}, {"sent", SRef}, {"kns", SStr}, {"kname", SStr}} {
+	}{{"verb", SStr}, {"obj", SRef}, {"nsd", SBool}, {"ns", SStr}, {"typ", SInt}, {"sent", SRef}, {"kns", SStr}, {"kname", SStr}, {"err", SBool}} {
 		prev := u.logArr(st, f.name, f.s)
 		na := c.Fresh("G_"+f.name, prev.Sort)
 		k := c.BoundVar("lk", SInt)
@@ -187,6 +187,10 @@ func (u *Unit) clientCall(fc *frameCtx, name string, sig *types.Signature, args 
 		u.havoc(st, pc, fr)
 	}
 	res := u.freshResults(shortName(name), sig, st, pc)
+	if n := len(res); n > 0 && res[n-1].T != nil && res[n-1].T.Sort == SRef {
+		// ghost: whether the call reported an error (logfailed(k))
+		st.heap["G:err"] = c.Store(u.logArr(st, "err", SBool), c.Sub(u.logLen(st), c.Int(1)), c.Neq(res[n-1].T, c.Nil()))
+	}
 	if verb == "Get" && len(args[2].F) == 2 && len(res) == 1 && res[0].T != nil {
 		// Assumed about the API server: a successful Get returns the object stored under the key asked for.
 		if stt := u.ifaceStatic[args[objIdx].T.id]; stt != nil {
